@@ -130,7 +130,21 @@ func c07r1(p *Program, r *Report) {
 		n++
 		switch s.kind {
 		case "write":
-			r.Check(allowedWrite[s.inFunc.Name], s.call, s.inFunc.Name+" writes to socket via "+exprStr(s.call.Fun),
+			okW := allowedWrite[s.inFunc.Name]
+			if !okW {
+				// a helper that one of the two writers was split into (and nobody else calls)
+				for aname := range allowedWrite {
+					if af := p.Func(aname); af != nil {
+						units := p.unitsOf(af)
+						for _, u := range units[1:] {
+							if u == s.inFunc && p.onlyCalledWithin(u, units) {
+								okW = true
+							}
+						}
+					}
+				}
+			}
+			r.Check(okW, s.call, s.inFunc.Name+" writes to socket via "+exprStr(s.call.Fun),
 				"one of the two serialised writers", "the socket is written outside the two contextWriter implementations: frames of concurrent requests can interleave")
 		case "handoff":
 			_, ok := allowedHandoff[s.inFunc.Name][s.callee]
@@ -246,11 +260,30 @@ func c07r2(p *Program, r *Report) {
 	if fi == nil {
 		return
 	}
-	g := p.GraphOf(fi)
+	g := p.GraphOfInl(fi)
 	info := g.Info
-	semField := p.Field("deadlineContextWriter", "semaphore")
+	// the semaphore: the chan struct{} field of the writer that the writer sends into (whatever it is called)
+	var semField *types.Var
+	for _, u := range g.Units() {
+		ast.Inspect(u.Decl.Body, func(n ast.Node) bool {
+			if s, ok := n.(*ast.SendStmt); ok && semField == nil {
+				if fv := fieldOf(info, s.Chan); fv != nil {
+					if owner := p.NamedType("deadlineContextWriter"); owner != nil {
+						if st, isSt := owner.Underlying().(*types.Struct); isSt {
+							for i := 0; i < st.NumFields(); i++ {
+								if st.Field(i) == fv {
+									semField = fv
+								}
+							}
+						}
+					}
+				}
+			}
+			return true
+		})
+	}
 	if semField == nil {
-		r.Unresolved("deadlineContextWriter.semaphore field missing")
+		r.Unresolved("deadlineContextWriter: no channel field that the writer sends into (the write semaphore)")
 		return
 	}
 	ef := g.Events(func(st Step) []string {
@@ -296,30 +329,60 @@ func c07r2(p *Program, r *Report) {
 		return nil
 	})
 	pobj := paramObj(info, fi.Decl.Type, 1)
+	isBufParam := func(u *FuncInfo, e ast.Expr) bool {
+		if isIdentOf(info, e, pobj) {
+			return true
+		}
+		rf, re := p.resolveValue(u, e, 0)
+		return rf == fi && isIdentOf(info, re, pobj)
+	}
 	nw := 0
-	ast.Inspect(fi.Decl.Body, func(n ast.Node) bool {
-		c, ok := n.(*ast.CallExpr)
-		if !ok {
+	for _, u := range g.Units() {
+		u := u
+		ast.Inspect(u.Decl.Body, func(n ast.Node) bool {
+			c, ok := n.(*ast.CallExpr)
+			if !ok {
+				return true
+			}
+			rx := recvExpr(c)
+			if rx == nil || !isSocketIface(info.TypeOf(rx)) || ast.Unparen(c.Fun).(*ast.SelectorExpr).Sel.Name != "Write" {
+				return true
+			}
+			nw++
+			s, ok := ef.Sol.Before(c)
+			r.Check(ok && s.Must["acquire"] && s.Max["release"] == 0, c, "(*deadlineContextWriter).writeContext Write inside critical section",
+				"semaphore held at the Write", "the socket Write is not dominated by the semaphore acquire (or the semaphore was already released): two frames can interleave")
+			r.Check(len(c.Args) == 1 && isBufParam(u, c.Args[0]) && !p.inLoop(c, u.Decl) && s.Max["sockWrite"] == 0, c, "(*deadlineContextWriter).writeContext single whole-slice Write",
+				"one Write of the whole parameter p", "the frame is not written by a single Write of the whole slice (split or repeated writes let another frame in between, or lose the byte count)")
 			return true
-		}
-		rx := recvExpr(c)
-		if rx == nil || !isSocketIface(info.TypeOf(rx)) || ast.Unparen(c.Fun).(*ast.SelectorExpr).Sel.Name != "Write" {
-			return true
-		}
-		nw++
-		s, ok := ef.Sol.Before(c)
-		r.Check(ok && s.Must["acquire"] && s.Max["release"] == 0, c, "(*deadlineContextWriter).writeContext Write inside critical section",
-			"semaphore held at the Write", "the socket Write is not dominated by the semaphore acquire (or the semaphore was already released): two frames can interleave")
-		r.Check(len(c.Args) == 1 && isIdentOf(info, c.Args[0], pobj) && !p.inLoop(c, fi.Decl) && s.Max["sockWrite"] == 0, c, "(*deadlineContextWriter).writeContext single whole-slice Write",
-			"one Write of the whole parameter p", "the frame is not written by a single Write of the whole slice (split or repeated writes let another frame in between, or lose the byte count)")
-		return true
-	})
+		})
+	}
 	if nw == 0 {
 		r.Unresolved("no socket Write in (*deadlineContextWriter).writeContext")
 	}
-	for _, e := range g.Exits() {
+	for _, e := range g.ExitsInl() {
 		s, ok := ef.ExitState(e)
 		if !ok || e.Kind == ExitPanic {
+			continue
+		}
+		if rs, isR := e.Node.(*ast.ReturnStmt); isR && len(rs.Results) == 1 {
+			if c, isC := ast.Unparen(rs.Results[0]).(*ast.CallExpr); isC && g.inl.calls[c] {
+				// `return helper(...)`: the values come from the helper's own returns; only the release is checked here
+				if s.Max["acquire"] > 0 {
+					r.Check(s.Must["acquire"] && s.Must["release"] && s.Max["release"] == 1, e.Node, "(*deadlineContextWriter).writeContext exit "+exitDesc(p, e)+" releases semaphore",
+						"released exactly once (defer)", "an exit after the acquire does not release the semaphore exactly once: all later writers block forever (or the semaphore is over-released)")
+				}
+				continue
+			}
+		}
+		if g.unitOf(e.Node) != fi {
+			// a return of a helper in tail position: the release happens in the anchor (checked at its own exit)
+			if s.Must["setDeadline"] && s.Max["sockWrite"] == 0 {
+				if rs, ok := e.Node.(*ast.ReturnStmt); ok && len(rs.Results) == 2 {
+					v, isC := constInt(info, rs.Results[0])
+					r.Check(isC && v == 0, e.Node, "(*deadlineContextWriter).writeContext deadline-failure exit", "n=0 when nothing was written", "SetWriteDeadline failure path reports bytes written")
+				}
+			}
 			continue
 		}
 		if s.Max["acquire"] > 0 {
@@ -426,14 +489,29 @@ func c07r4(p *Program, r *Report) {
 		r.Unresolved("expected 2 writeContext implementations, found %d", len(impls))
 	}
 	for _, fi := range impls {
-		g := p.GraphOf(fi)
+		fi := fi
+		g := p.GraphOfInl(fi)
 		info := g.Info
 		ctxObj := paramObj(info, fi.Decl.Type, 0)
+		// isCtx: e is the writer's context parameter, or the parameter of a helper it was handed to
+		isCtx := func(e ast.Expr) bool {
+			if isIdentOf(info, e, ctxObj) {
+				return true
+			}
+			if id, ok := ast.Unparen(e).(*ast.Ident); ok {
+				u := g.unitOf(id)
+				if u != fi {
+					rf, re := p.resolveValue(u, id, 0)
+					return rf == fi && isIdentOf(info, re, ctxObj)
+				}
+			}
+			return false
+		}
 		isCtxUse := func(n ast.Node) bool {
 			found := false
 			inspectNoLit(n, func(x ast.Node) bool {
 				if c, ok := x.(*ast.CallExpr); ok {
-					if sel, ok := ast.Unparen(c.Fun).(*ast.SelectorExpr); ok && isIdentOf(info, sel.X, ctxObj) && (sel.Sel.Name == "Done" || sel.Sel.Name == "Err") {
+					if sel, ok := ast.Unparen(c.Fun).(*ast.SelectorExpr); ok && isCtx(sel.X) && (sel.Sel.Name == "Done" || sel.Sel.Name == "Err") {
 						found = true
 					}
 				}
@@ -463,30 +541,33 @@ func c07r4(p *Program, r *Report) {
 		})
 		nsend := 0
 		// every use of ctx (Done in a select comm, Err in a return) must be before any hand-over
-		ast.Inspect(fi.Decl.Body, func(n ast.Node) bool {
-			c, ok := n.(*ast.CallExpr)
-			if !ok {
+		for _, u := range g.Units() {
+			u := u
+			ast.Inspect(u.Decl.Body, func(n ast.Node) bool {
+				c, ok := n.(*ast.CallExpr)
+				if !ok {
+					return true
+				}
+				sel, ok := ast.Unparen(c.Fun).(*ast.SelectorExpr)
+				if !ok || !isCtx(sel.X) || (sel.Sel.Name != "Done" && sel.Sel.Name != "Err") {
+					return true
+				}
+				var s EvState
+				var reach bool
+				if cc := enclosingCommOf(p, c, u.Decl); cc != nil {
+					s, reach = ef.Sol.Before(cc.Comm)
+				} else {
+					s, reach = ef.Sol.Before(c)
+				}
+				if !reach {
+					return true
+				}
+				nsend++
+				r.Check(s.Max["handedOver"] == 0, c, fi.Name+" use of ctx."+sel.Sel.Name+"()", "context consulted only before the frame is handed over",
+					"the caller's context is consulted after the frame was handed to the writer (semaphore taken / request enqueued): writeContext can return n=0 with a context error although the frame is (or will be) on the wire, and exec then releases its stream id")
 				return true
-			}
-			sel, ok := ast.Unparen(c.Fun).(*ast.SelectorExpr)
-			if !ok || !isIdentOf(info, sel.X, ctxObj) || (sel.Sel.Name != "Done" && sel.Sel.Name != "Err") {
-				return true
-			}
-			var s EvState
-			var reach bool
-			if cc := enclosingCommOf(p, c, fi.Decl); cc != nil {
-				s, reach = ef.Sol.Before(cc.Comm)
-			} else {
-				s, reach = ef.Sol.Before(c)
-			}
-			if !reach {
-				return true
-			}
-			nsend++
-			r.Check(s.Max["handedOver"] == 0, c, fi.Name+" use of ctx."+sel.Sel.Name+"()", "context consulted only before the frame is handed over",
-				"the caller's context is consulted after the frame was handed to the writer (semaphore taken / request enqueued): writeContext can return n=0 with a context error although the frame is (or will be) on the wire, and exec then releases its stream id")
-			return true
-		})
+			})
+		}
 		if nsend == 0 {
 			r.Bad(fi.Decl, fi.Name+" honours ctx before writing", "writeContext never looks at its context: a cancelled request still writes")
 		}
